@@ -90,3 +90,55 @@ def lex_case(dialect, templater, style, label, source):
         from harness.crashcheck import _exc_info
         out["exc"] = _exc_info(e)
     return out
+
+
+def check_tf(tf):
+    """The C07 property on one TemplatedFile -> list of (key, what)."""
+    probs = []
+    src, tpl = tf.source_str, tf.templated_str
+    pos = 0
+    for rs in tf.raw_sliced:
+        if rs.source_idx != pos:
+            probs.append(("raw-not-tiling", "raw slice %r starts at %d, expected %d" % (rs.raw[:15], rs.source_idx, pos)))
+            break
+        if src[pos:pos + len(rs.raw)] != rs.raw:
+            probs.append(("raw-text", "raw slice text %r is not the source text at %d" % (rs.raw[:15], pos)))
+            break
+        pos += len(rs.raw)
+    else:
+        if pos != len(src):
+            probs.append(("raw-not-tiling", "raw slices end at %d, source length %d" % (pos, len(src))))
+    pos = 0
+    for fs in tf.sliced_file:
+        ts, ss = fs.templated_slice, fs.source_slice
+        if ts.start != pos or ts.stop < ts.start:
+            probs.append(("templated-not-tiling", "templated slice %r does not follow %d" % ((ts.start, ts.stop), pos)))
+            break
+        pos = ts.stop
+        if not (0 <= ss.start <= ss.stop <= len(src)):
+            probs.append(("source-out-of-file", "source slice %r outside the file (length %d)" % ((ss.start, ss.stop), len(src))))
+        if fs.slice_type == "literal" and ts.stop > ts.start:
+            if src[ss.start:ss.stop] != tpl[ts.start:ts.stop]:
+                probs.append(("literal-text-differs", "literal slice maps source %r to rendered %r" % (src[ss.start:ss.stop][:25], tpl[ts.start:ts.stop][:25])))
+    else:
+        if tf.sliced_file and pos != len(tpl):
+            probs.append(("templated-not-tiling", "templated slices end at %d, rendered length %d" % (pos, len(tpl))))
+    return probs
+
+
+def tf_case(dialect, templater, style, label, source):
+    out = {"exc": None, "variants": 0, "probs": [], "tmp": 0, "loops": False, "nslices": 0}
+    try:
+        lnt = linter(dialect, templater, style)
+        rendered = lnt.render_string(source, fname="t.sql", config=lnt.config, encoding="utf-8")
+        out["tmp"] = len(rendered.templater_violations)
+        for vi, tf in enumerate(rendered.templated_variants):
+            out["variants"] += 1
+            out["nslices"] += len(tf.sliced_file)
+            out["loops"] = out["loops"] or any(x.source_slice.start > y.source_slice.start for x, y in zip(tf.sliced_file, tf.sliced_file[1:]))
+            for k, w in check_tf(tf):
+                out["probs"].append((k, w, vi))
+    except BaseException as e:  # noqa
+        from harness.crashcheck import _exc_info
+        out["exc"] = _exc_info(e)
+    return out
